@@ -429,6 +429,36 @@ impl<'r, 'a> St<'r, 'a> {
         let me_before = s.held();
         let table_before = s.lock().owner_table();
         s.api_begin(ApiKind::NonAcq, false);
+        let depth = s.api_depth();
+        let unwound = catch_unwind(AssertUnwindSafe(|| self.nonacq_op(op, t, node)));
+        if unwound.is_err() {
+            s.api_unwind_to(depth);
+        }
+        crate::pay::PAY_DEBUG_MODE.with(|m| m.set(0));
+        let _rec = s.api_end();
+        let me_after = s.held();
+        // a raw-lock fault inside the operation is judged by the C12 oracle after the unwind
+        let raw_unwound = matches!(&unwound, Err(p) if p.is::<crate::raw::RawFault>() || self.raw_faults());
+        if raw_unwound {
+        } else if me_before != me_after {
+            s.report(Clause::NonAcqStateChanged, format!("{:?} on target {} changed the caller's holds from {:?} to {:?}", op, t, me_before, me_after));
+        } else if self.quiescent_profile() {
+            let table_after = s.lock().owner_table();
+            if table_before != table_after {
+                s.report(Clause::NonAcqStateChanged, format!("{:?} on target {} changed the owner table from {:?} to {:?}", op, t, table_before, table_after));
+            }
+        }
+        if let Err(p) = unwound {
+            // the payload's own panic (DebugPayloadPanic) ends here; anything else goes on
+            if !(op == NonAcqOp::DebugPayloadPanic && p.is::<Injected>()) {
+                resume_unwind(p);
+            }
+        }
+    }
+
+    fn nonacq_op(&mut self, op: NonAcqOp, t: usize, node: &Node) {
+        let s = self.s();
+        let world = self.r.world;
         match op {
             NonAcqOp::Debug => {
                 let txt = format!("{:?}", node);
@@ -439,6 +469,13 @@ impl<'r, 'a> St<'r, 'a> {
                 use std::fmt::Write;
                 let mut w = LimitedSink(n as usize);
                 let _ = write!(w, "{:?}", node);
+            }
+            NonAcqOp::DebugPayloadErr | NonAcqOp::DebugPayloadPanic => {
+                use std::fmt::Write;
+                crate::pay::PAY_DEBUG_MODE.with(|m| m.set(if op == NonAcqOp::DebugPayloadErr { 1 } else { 2 }));
+                let mut w = LimitedSink(usize::MAX);
+                let _ = write!(w, "{:?}", node);
+                crate::pay::PAY_DEBUG_MODE.with(|m| m.set(0));
             }
             NonAcqOp::Accessors => accessors(node),
             NonAcqOp::Construct => {
@@ -474,16 +511,6 @@ impl<'r, 'a> St<'r, 'a> {
                     // a concurrent unwind may still set the flag after this clear: uncertain
                     e.may = flying;
                 }
-            }
-        }
-        let _rec = s.api_end();
-        let me_after = s.held();
-        if me_before != me_after {
-            s.report(Clause::NonAcqStateChanged, format!("{:?} on target {} changed the caller's holds from {:?} to {:?}", op, t, me_before, me_after));
-        } else if self.quiescent_profile() {
-            let table_after = s.lock().owner_table();
-            if table_before != table_after {
-                s.report(Clause::NonAcqStateChanged, format!("{:?} on target {} changed the owner table from {:?} to {:?}", op, t, table_before, table_after));
             }
         }
     }
@@ -956,6 +983,7 @@ impl<'r, 'a> Th<'r, 'a> {
             Step::GateWait(g) => s.gate_wait(*g),
             Step::Yield => s.yield_point(),
             Step::Destroy(t, d) => self.destroy(*t, *d),
+            Step::InUnwind(_) => unreachable!("happysim: InUnwind is handled by run_step"),
             Step::Key(k) => match k {
                 KeyOp::Get => {
                     let got = ThreadKey::get();
@@ -1112,6 +1140,14 @@ impl<'r, 'a> Th<'r, 'a> {
                 None => return,
             };
             self.st.probe(|p| p.fault_probes += 1);
+            if std::thread::panicking() {
+                // probing from inside a destructor during an unwind: the probe's own guard is
+                // dropped while thread::panicking() and may poison what it covers
+                let mut m = self.st.r.model.lock().unwrap();
+                for d in 0..world.spec.leaves[lid].layers() {
+                    m.poison.entry(PoisonId::Leaf(lid, d)).or_default().may = true;
+                }
+            }
             s.api_begin(ApiKind::NonAcq, false);
             let r = catch_unwind(AssertUnwindSafe(|| probe_try(leaf, key)));
             let probe_rec = s.api_end();
@@ -1179,28 +1215,56 @@ impl<'r, 'a> Th<'r, 'a> {
         }
     }
 
-    fn run(&mut self, steps: &[Step]) {
+    /// one step with its own unwind boundary and the post-unwind oracles
+    fn run_step(&mut self, i: usize, step: &Step) {
         let s = self.st.s();
+        self.st.step = i;
+        if let Step::InUnwind(inner) = step {
+            // the inner step runs inside a destructor while an unrelated panic unwinds
+            // (thread::panicking() is true throughout); guards dropped normally in there
+            // legitimately poison what they cover
+            if let Step::Acquire(a) = &**inner {
+                let spec = &self.st.r.world.spec;
+                let ids = spec.poison_ids(&spec.targets[a.target], if a.rebuild { None } else { Some(a.target) });
+                let mut m = self.st.r.model.lock().unwrap();
+                for p in ids {
+                    m.poison.entry(p).or_default().may = true;
+                }
+            }
+            struct RunOnDrop<'x, 'r, 'a>(*mut Th<'r, 'a>, usize, &'x Step);
+            impl Drop for RunOnDrop<'_, '_, '_> {
+                fn drop(&mut self) {
+                    // safety: the interpreter outlives this frame and is not otherwise borrowed
+                    unsafe { (*self.0).run_step(self.1, self.2) }
+                }
+            }
+            let me: *mut Th<'r, 'a> = self;
+            let _ = catch_unwind(AssertUnwindSafe(|| {
+                let _d = RunOnDrop(me, i, &**inner);
+                resume_unwind(Box::new(Injected));
+            }));
+            return;
+        }
+        let depth = s.api_depth();
+        let faults0 = s.faults_fired_by_me();
+        let r = catch_unwind(AssertUnwindSafe(|| self.exec(step)));
+        match r {
+            Err(p) => {
+                let recs = s.api_unwind_to(depth);
+                self.after_unwind(step, p, recs);
+            }
+            Ok(()) => {
+                if s.faults_fired_by_me() != faults0 {
+                    s.report(Clause::RawPanicLost, format!("a raw-lock operation panicked during step {} but the panic never reached the caller (the step returned normally)", i));
+                }
+            }
+        }
+        self.st.probe(|p| p.steps_done += 1);
+    }
+
+    fn run(&mut self, steps: &[Step]) {
         for (i, step) in steps.iter().enumerate() {
-            self.st.step = i;
-            let depth = s.api_depth();
-            let faults0 = s.faults_fired_by_me();
-            let r = catch_unwind(AssertUnwindSafe(|| self.exec(step)));
-            match r {
-                Err(p) => {
-                    let recs = s.api_unwind_to(depth);
-                    self.after_unwind(step, p, recs);
-                }
-                Ok(()) => {
-                    if s.faults_fired_by_me() != faults0 {
-                        s.report(Clause::RawPanicLost, format!("a raw-lock operation panicked during step {} but the panic never reached the caller (the step returned normally)", i));
-                    }
-                }
-            }
-            self.st.probe(|p| p.steps_done += 1);
-            if s.aborted() {
-                // verdict frozen; finish quickly but keep dropping things properly
-            }
+            self.run_step(i, step);
         }
         // thread end: give the key back
         self.kh.key.take();
